@@ -202,3 +202,168 @@ Proof.
         rewrite IHts. reflexivity.
   - cbn in Hpl. discriminate.
 Qed.
+
+(* ---------------------------------------------------------------------------------------------- *)
+(* the layout RELATION: the canonical tree up to what lists of unsized elements remember about the element
+   last handed out.  While `possible_mut_borrow` is set the recorded inner pointer is the layout of one of
+   the elements at its current address; otherwise it is a leftover all of whose addresses lie after the
+   list's own (it is only ever shifted together with the list, and - since D26 - never checked).       *)
+Definition elem_addr (it : ty) (k : nat) (items : list (list Z * val)) (b : Z) (i : nat) : Z :=
+  b + 12 + zlen items * (4 + Z.of_nat k) + zsum (firstn i (usizes it items)).
+
+Fixpoint Lay (t : ty) (v : val) (b : Z) (p : ptr) {struct t} : Prop :=
+  match t, v, p with
+  | TFixed c, VBytes _, PFixed a => a = b
+  | TList c lw, VList items, PList a bl => a = b /\ bl = Z.of_nat (fsize c) * zlen items
+  | TRem, VBytes bs, PRem a l => a = b /\ l = zlen bs
+  | TUList it k, VUList items, PUList a n inner pmb rs re =>
+      a = b /\ n = zlen items /\ rs = b /\ re = b + zlen (encode (TUList it k) (VUList items)) /\
+      match inner with
+      | None => True
+      | Some q =>
+          if pmb then exists i kv, nth_error items i = Some kv /\ Lay it (snd kv) (elem_addr it k items b i) q
+          else after b it q = true
+      end
+  | TStruct ts, VStruct vs, PStruct ps =>
+      (fix go ts vs ps b :=
+         match ts, vs, ps with
+         | [], [], [] => True
+         | t :: ts', v :: vs', q :: ps' => Lay t v b q /\ go ts' vs' ps' (b + zlen (encode t v))
+         | _, _, _ => False
+         end) ts vs ps b
+  | _, _, _ => False
+  end.
+
+Fixpoint Lay_fields (ts : list ty) (vs : list val) (ps : list ptr) (b : Z) : Prop :=
+  match ts, vs, ps with
+  | [], [], [] => True
+  | t :: ts', v :: vs', q :: ps' => Lay t v b q /\ Lay_fields ts' vs' ps' (b + zlen (encode t v))
+  | _, _, _ => False
+  end.
+
+Lemma Lay_struct ts vs ps b : Lay (TStruct ts) (VStruct vs) b (PStruct ps) = Lay_fields ts vs ps b.
+Proof.
+  cbn [Lay]. revert vs ps b. induction ts as [|t ts IH]; intros [|v vs] [|q ps] b; try reflexivity.
+  cbn [Lay_fields]. now rewrite IH.
+Qed.
+
+Theorem lay0_Lay : forall t v b, plain t = true -> wf t v = true -> Lay t v b (lay0 t v b).
+Proof.
+  induction t as [c|c lw| |it k IH|ts IH|rw vs IH] using ty_ind'; intros v b Hpl Hwf.
+  - destruct v; try (cbn in Hwf; discriminate). reflexivity.
+  - destruct v; try (cbn in Hwf; discriminate). cbn. auto.
+  - destruct v; try (cbn in Hwf; discriminate). cbn. auto.
+  - destruct v; try (cbn in Hwf; discriminate). cbn [lay0 Lay]. auto.
+  - destruct v as [| | |vs0|]; try (cbn in Hwf; discriminate). rewrite lay0_struct, Lay_struct.
+    revert vs0 b Hpl Hwf. induction IH as [|t ts Ht _ IHts]; intros vs0 b Hpl Hwf.
+    + destruct vs0; [exact I|cbn in Hwf; discriminate].
+    + destruct vs0 as [|v vs0]; [cbn in Hwf; discriminate|].
+      rewrite wf_struct_cons in Hwf. apply andb_true_iff in Hwf as [Hv Hvs].
+      rewrite plain_struct_cons in Hpl. apply andb_true_iff in Hpl as [Hp1 Hp2].
+      cbn [lay0_fields Lay_fields]. split; [apply Ht; assumption|apply IHts; assumption].
+  - cbn in Hpl. discriminate.
+Qed.
+
+(* ---------------------------------------------------------------------------------------------- *)
+(* positive size of everything but a trailing RemainingBytes and empty structs                      *)
+Lemma zsum_firstn_le (l : list Z) i : Forall (fun x => 0 <= x) l -> 0 <= zsum (firstn i l) <= zsum l.
+Proof.
+  revert i. induction l as [|x l IH]; intros i H; [destruct i; cbn; lia|].
+  inversion H; subst. destruct i; cbn [firstn zsum]; [pose proof (zsum_nonneg _ H3); lia|].
+  specialize (IH i H3). lia.
+Qed.
+
+Lemma usizes_nonneg it items : Forall (fun x => 0 <= x) (usizes it items).
+Proof. apply Forall_forall. intros x Hin. unfold usizes in Hin. apply in_map_iff in Hin as [e [<- _]]. apply zlen_nonneg. Qed.
+
+Lemma nth_error_usizes it items i kv :
+  nth_error items i = Some kv -> nth_error (usizes it items) i = Some (zlen (encode it (snd kv))).
+Proof. intros H. unfold usizes, uenc. rewrite map_map. now rewrite (map_nth_error _ _ _ H). Qed.
+
+Lemma zsum_firstn_S (l : list Z) i x : nth_error l i = Some x -> zsum (firstn (S i) l) = zsum (firstn i l) + x.
+Proof.
+  revert i. induction l as [|y l IH]; intros [|i] H; cbn [nth_error] in H; try discriminate.
+  - injection H as ->. cbn [firstn zsum]. lia.
+  - change (firstn (S (S i)) (y :: l)) with (y :: firstn (S i) l). change (firstn (S i) (y :: l)) with (y :: firstn i l).
+    cbn [zsum]. rewrite (IH i H). lia.
+Qed.
+
+Lemma elem_inside it k items b i kv : ufacts it k items -> nth_error items i = Some kv ->
+  b + 12 + zlen items * (4 + Z.of_nat k) <= elem_addr it k items b i /\
+  elem_addr it k items b i + zlen (encode it (snd kv)) <= b + zlen (encode (TUList it k) (VUList items)).
+Proof.
+  intros F Hn. rewrite (zlen_encode_ulist _ _ _ F). unfold elem_addr.
+  pose proof (zsum_firstn_le (usizes it items) i (usizes_nonneg it items)).
+  pose proof (zsum_firstn_le (usizes it items) (S i) (usizes_nonneg it items)) as H2.
+  rewrite (zsum_firstn_S _ _ _ (nth_error_usizes it _ _ _ Hn)) in H2. lia.
+Qed.
+
+(* ---------------------------------------------------------------------------------------------- *)
+(* check_pointers accepts every layout that lies inside the range                                   *)
+Definition chk_stmt (t : ty) : Prop :=
+  forall last v b p lo hi cursor, plain t = true -> ty_ok last t = true -> wf t v = true -> Lay t v b p ->
+    lo <= b -> cursor <= b -> b + zlen (encode t v) <= hi ->
+    exists c', check_ptrs p lo hi cursor = (true, c') /\ cursor <= c' <= b + zlen (encode t v).
+
+Lemma wf_nth it (items : list (list Z * val)) i kv :
+  forallb (fun kv => wf it (snd kv)) items = true -> nth_error items i = Some kv -> wf it (snd kv) = true.
+Proof. intros H Hn. rewrite forallb_forall in H. apply H. eapply nth_error_In; eauto. Qed.
+
+Theorem check_ptrs_Lay : forall t, chk_stmt t.
+Proof.
+  induction t as [c|c lw| |it k IH|ts IH|rw vs IH] using ty_ind'; intros last v b p lo hi cursor Hpl Hok Hwf HL Hlo Hcur Hhi.
+  - destruct v as [bs| | | |]; try (cbn in Hwf; discriminate). destruct p; try (cbn in HL; contradiction). cbn in HL. subst addr.
+    cbn [wf] in Hwf. zb. match goal with H : (_ =? _)%nat = true |- _ => apply Nat.eqb_eq in H; rename H into Hl end.
+    cbn [ty_ok] in Hok. zb. match goal with H : (_ =? _)%nat = false |- _ => apply Nat.eqb_neq in H; rename H into Hnz end.
+    cbn [encode] in *. assert (zlen bs = Z.of_nat (fsize c)) as Hz by (unfold zlen; lia).
+    exists b. cbn [check_ptrs]. unfold in_range.
+    destruct (cursor <=? b) eqn:E1; [|zb; lia]. destruct (lo <=? b) eqn:E2; [|zb; lia]. destruct (b <? hi) eqn:E3; [|zb; lia].
+    split; [reflexivity|lia].
+  - destruct v as [|items| | |]; try (cbn in Hwf; discriminate). destruct p; try (cbn in HL; contradiction). cbn in HL. destruct HL as [-> ->].
+    cbn [ty_ok] in Hok. zb. repeat match goal with H : (_ =? _)%nat = false |- _ => apply Nat.eqb_neq in H end.
+    cbn [encode] in *. rewrite zlen_app, zlen_le_bytes in *. pose proof (zlen_nonneg (concat items)).
+    exists b. cbn [check_ptrs]. unfold in_range.
+    destruct (cursor <=? b) eqn:E1; [|zb; lia]. destruct (lo <=? b) eqn:E2; [|zb; lia]. destruct (b <? hi) eqn:E3; [|zb; lia].
+    split; [reflexivity|lia].
+  - destruct v as [bs| | | |]; try (cbn in Hwf; discriminate). destruct p; try (cbn in HL; contradiction). cbn in HL. destruct HL as [-> ->].
+    cbn [encode] in *. pose proof (zlen_nonneg bs).
+    exists b. cbn [check_ptrs]. unfold in_range.
+    destruct (cursor <=? b) eqn:E1; [|zb; lia]. destruct (lo <=? b) eqn:E2; [|zb; lia]. cbn [andb].
+    destruct (b <? hi) eqn:E3; [split; [reflexivity|lia]|]. destruct (b =? hi) eqn:E4; [split; [reflexivity|lia]|zb; lia].
+  - destruct v as [| |items| |]; try (cbn in Hwf; discriminate).
+    destruct p as [| | |a n inner pmb rs re| |]; try (cbn in HL; contradiction).
+    cbn [Lay] in HL. destruct HL as (-> & -> & -> & -> & Hin).
+    pose proof (ulist_facts _ _ _ Hwf) as F. pose proof (zlen_encode_ulist _ _ _ F) as Hsz.
+    pose proof (uf_n _ _ _ F). pose proof (uf_usz _ _ _ F).
+    exists b. cbn [check_ptrs]. unfold in_range.
+    destruct (cursor <=? b) eqn:E1; [|zb; lia]. destruct (lo <=? b) eqn:E2; [|zb; lia].
+    destruct (b <? hi) eqn:E3; [|zb; nia]. cbn [andb].
+    assert (match inner with Some q => if pmb then fst (check_ptrs q lo hi lo) else true | None => true end = true) as ->.
+    { destruct inner as [q|]; [|reflexivity]. destruct pmb; [|reflexivity].
+      destruct Hin as (i & kv & Hn & Hq). cbn [ty_ok] in Hok.
+      destruct (elem_inside it k items b i kv F Hn) as [He1 He2].
+      destruct (IH false (snd kv) _ q lo hi lo Hpl Hok (wf_nth _ _ _ _ (uf_wfs _ _ _ F) Hn) Hq) as (c' & Hc & _); try nia.
+      now rewrite Hc. }
+    split; [reflexivity|nia].
+  - destruct v as [| | |vs0|]; try (cbn in Hwf; discriminate).
+    destruct p as [| | | |ps|]; try (cbn in HL; contradiction).
+    rewrite Lay_struct in HL. rewrite check_struct.
+    revert vs0 ps b cursor last Hpl Hok Hwf HL Hlo Hcur Hhi.
+    induction IH as [|t ts Ht _ IHts]; intros vs0 ps b cursor last Hpl Hok Hwf HL Hlo Hcur Hhi.
+    + destruct vs0; [|cbn in Hwf; discriminate]. destruct ps; [|contradiction].
+      exists cursor. rewrite encode_struct_nil in *. change (zlen (@nil Z)) with 0 in *. cbn [check_fields]. split; [reflexivity|lia].
+    + destruct vs0 as [|v vs0]; [cbn in Hwf; discriminate|]. destruct ps as [|q ps]; [contradiction|].
+      rewrite wf_struct_cons in Hwf. apply andb_true_iff in Hwf as [Hv Hvs].
+      rewrite plain_struct_cons in Hpl. apply andb_true_iff in Hpl as [Hp1 Hp2].
+      cbn [Lay_fields] in HL. destruct HL as [HLq HLr].
+      rewrite encode_struct_cons, zlen_app in *.
+      pose proof (zlen_nonneg (encode t v)). pose proof (zlen_nonneg (encode (TStruct ts) (VStruct vs0))).
+      assert (exists l1, ty_ok l1 t = true /\ ty_ok last (TStruct ts) = true) as (l1 & Hok1 & Hok2).
+      { destruct ts as [|t2 ts]; [exists last; rewrite ty_ok_struct_one in Hok; split; [exact Hok|reflexivity]|].
+        rewrite ty_ok_struct_cons in Hok. apply andb_true_iff in Hok as [H1 H2]. exists false. split; assumption. }
+      destruct (Ht l1 v b q lo hi cursor Hp1 Hok1 Hv HLq) as (c1 & Hc1 & Hr1); try lia.
+      cbn [check_fields]. rewrite Hc1.
+      destruct (IHts vs0 ps (b + zlen (encode t v)) c1 last Hp2 Hok2 Hvs HLr) as (c2 & Hc2 & Hr2); try lia.
+      exists c2. split; [exact Hc2|lia].
+  - cbn in Hpl. discriminate.
+Qed.
